@@ -60,7 +60,7 @@ fn simple_op() -> BoxedStrategy<WOp> {
         1 => fq2_strategy().prop_map(WOp::Sqrt),
         3 => (0u8..2, point_strategy(true), point_strategy(true)).prop_map(|(g, p, q)| WOp::Group(g, p, q)),
         3 => (0u8..2, point_strategy(false), scalar_strategy(), 0u8..5).prop_map(|(g, p, k, path)| WOp::Mul(g, p, k, path)),
-        2 => (0u8..2, point_strategy(false), proptest::collection::vec(scalar_strategy(), 1..4)).prop_map(|(g, p, ks)| WOp::OwnWnaf(g, p, ks)),
+        2 => (0u8..2, point_strategy(false), proptest::collection::vec(prop_oneof![5 => scalar_strategy(), 1 => Just(ScalarR::Zero)], 1..4)).prop_map(|(g, p, ks)| WOp::OwnWnaf(g, p, ks)),
         2 => (0u8..2, proptest::collection::vec((point_strategy(false), scalar_strategy()), 0..6)).prop_map(|(g, v)| WOp::Msm(g, v)),
         1 => (0u8..POOL_SUB as u8, 0u8..POOL_SUB as u8).prop_map(|(i, j)| WOp::Pairing(i, j)),
         2 => (0u8..2, any::<bool>(), 0u8..4, msg_strategy(), dst_strategy()).prop_map(|(g, ro, e, m, d)| WOp::Hash(g, ro, e, m, d)),
@@ -72,7 +72,7 @@ fn simple_op() -> BoxedStrategy<WOp> {
 fn op_strategy() -> BoxedStrategy<WOp> {
     prop_oneof![
         5 => simple_op(),
-        3 => scalar_strategy().prop_map(WOp::SharedWnaf),
+        3 => prop_oneof![4 => scalar_strategy(), 1 => Just(ScalarR::Zero), 1 => Just(ScalarR::One)].prop_map(WOp::SharedWnaf),
         2 => (0u8..POOL_SUB as u8, 0u8..POOL_SUB as u8).prop_map(|(i, j)| WOp::SharedPairing(i, j)),
     ]
     .boxed()
@@ -166,11 +166,24 @@ fn rp(k: &Z) -> crt::FrRepr {
 
 /// state shared (borrowed) by all threads
 struct Shared<'a> {
-    table1: Option<&'a [crt::G1]>,
-    table2: Option<&'a [crt::G2]>,
-    window: usize,
+    /// the staged context (window table computed once) borrowed by every thread; each thread takes
+    /// ONE `.shared()` handle from it and reuses that handle for all its scalars
+    wb1: Option<&'a Wnaf<usize, &'a [crt::G1], &'a mut Vec<i64>>>,
+    wb2: Option<&'a Wnaf<usize, &'a [crt::G2], &'a mut Vec<i64>>>,
     p_prep: &'a crt::G1Prepared,
     q_prep: &'a crt::G2Prepared,
+}
+
+/// per-thread (per sequential run) mutable state: the reused wNAF handles
+struct Local<'a> {
+    h1: Option<Wnaf<usize, &'a [crt::G1], Vec<i64>>>,
+    h2: Option<Wnaf<usize, &'a [crt::G2], Vec<i64>>>,
+}
+
+impl<'a> Local<'a> {
+    fn new(sh: &Shared<'a>) -> Local<'a> {
+        Local { h1: sh.wb1.map(|w| w.shared()), h2: sh.wb2.map(|w| w.shared()) }
+    }
 }
 
 fn group_ops<G: Raw + HasPool>(p: &PointR, q: &PointR, out: &mut Vec<u8>) -> Result<(), String>
@@ -244,8 +257,17 @@ where
         let mut wb = w.base(pp, ks.len());
         ks.iter().map(|k| wb.scalar(rp(&k.build255()))).collect()
     })?;
-    for r in &res {
+    for (k, r) in ks.iter().zip(res.iter()) {
         G::put_proj(out, r);
+        // the same multiplication on a fresh context must give the same bits (no dependence on the
+        // earlier scalars the reused context has seen)
+        let fresh: G::Proj = cr("fresh wnaf", || Wnaf::new().base(pp, ks.len()).scalar(rp(&k.build255())))?;
+        let (mut a, mut b) = (vec![], vec![]);
+        G::put_proj(&mut a, r);
+        G::put_proj(&mut b, &fresh);
+        if a != b {
+            return Err(format!("a reused wNAF context returns different bits than a fresh one for scalar {:?} (dependence on call history)", k));
+        }
     }
     Ok(())
 }
@@ -262,7 +284,7 @@ where
     Ok(())
 }
 
-fn exec(op: &WOp, sh: &Shared) -> Result<Vec<u8>, String> {
+fn exec<'a>(op: &WOp, sh: &Shared<'a>, lo: &mut Local<'a>) -> Result<Vec<u8>, String> {
     let mut out = vec![];
     match op {
         WOp::Fq2Arith(a, b) => {
@@ -323,20 +345,12 @@ fn exec(op: &WOp, sh: &Shared) -> Result<Vec<u8>, String> {
         }
         WOp::SharedWnaf(k) => {
             let kz = k.build255();
-            if let Some(t) = sh.table1 {
-                let r = cr("shared wnaf", || {
-                    let mut digits = vec![];
-                    pairing_plus::verif_wnaf::wnaf_form(&mut digits, rp(&kz), sh.window);
-                    pairing_plus::verif_wnaf::wnaf_exp(t, &digits)
-                })?;
+            if let Some(h) = lo.h1.as_mut() {
+                let r: crt::G1 = cr("shared wnaf handle", || h.scalar(rp(&kz)))?;
                 G1m::put_proj(&mut out, &r);
             }
-            if let Some(t) = sh.table2 {
-                let r = cr("shared wnaf", || {
-                    let mut digits = vec![];
-                    pairing_plus::verif_wnaf::wnaf_form(&mut digits, rp(&kz), sh.window);
-                    pairing_plus::verif_wnaf::wnaf_exp(t, &digits)
-                })?;
+            if let Some(h) = lo.h2.as_mut() {
+                let r: crt::G2 = cr("shared wnaf handle", || h.scalar(rp(&kz)))?;
                 G2m::put_proj(&mut out, &r);
             }
         }
@@ -403,54 +417,31 @@ const NSEL: [usize; 8] = [0, 1, 2, 4, 8, 21, 44, 130];
 fn check_workload(w: &Workload, info: &mut Info) -> Result<(), String> {
     // make sure the lazily built pools of the harness exist before threads start (harness state, not crate state)
     let _ = (G1m::pool(), G2m::pool());
-    // shared state: a wNAF window table built once through the public staging API, and one prepared pair
+    // shared state: a wNAF window table staged once through the public API, and one prepared pair
     let n = NSEL[w.shared_n as usize % NSEL.len()];
     let mut ctx1 = Wnaf::<(), Vec<crt::G1>, Vec<i64>>::new();
     let mut ctx2 = Wnaf::<(), Vec<crt::G2>, Vec<i64>>::new();
     let base1 = proj_c::<G1m>(&w.shared_base.build::<G1m>());
     let base2 = proj_c::<G2m>(&w.shared_base.build::<G2m>());
-    let mut t1: Vec<crt::G1> = vec![];
-    let mut t2: Vec<crt::G2> = vec![];
-    let window;
-    if w.shared_group == 0 {
-        window = crt::G1::recommended_wnaf_for_num_scalars(n);
-        cr("wnaf_table", || pairing_plus::verif_wnaf::wnaf_table(&mut t1, base1, window))?;
-        // the public path must agree with the table-based path on one scalar (sanity of the sharing set-up)
-        let k = rp(&Z::from(0x1234_5678u32));
-        let a: crt::G1 = cr("public", || ctx1.base(base1, n).shared().scalar(k))?;
-        let mut d = vec![];
-        pairing_plus::verif_wnaf::wnaf_form(&mut d, k, window);
-        let b = pairing_plus::verif_wnaf::wnaf_exp(&t1, &d);
-        if proj_m::<G1m>(&a) != proj_m::<G1m>(&b) {
-            return Err("shared().scalar(k) differs from the table-based evaluation".into());
-        }
-    } else {
-        window = crt::G2::recommended_wnaf_for_num_scalars(n);
-        cr("wnaf_table", || pairing_plus::verif_wnaf::wnaf_table(&mut t2, base2, window))?;
-        let k = rp(&Z::from(0x1234_5678u32));
-        let a: crt::G2 = cr("public", || ctx2.base(base2, n).shared().scalar(k))?;
-        let mut d = vec![];
-        pairing_plus::verif_wnaf::wnaf_form(&mut d, k, window);
-        let b = pairing_plus::verif_wnaf::wnaf_exp(&t2, &d);
-        if proj_m::<G2m>(&a) != proj_m::<G2m>(&b) {
-            return Err("shared().scalar(k) differs from the table-based evaluation".into());
-        }
-    }
+    let wb1 = if w.shared_group == 0 { Some(cr("Wnaf::base", || ctx1.base(base1, n))?) } else { None };
+    let wb2 = if w.shared_group == 1 { Some(cr("Wnaf::base", || ctx2.base(base2, n))?) } else { None };
     let p_prep = aff_c::<G1m>(&G1m::pool().sub[w.shared_pair.0 as usize % POOL_SUB].1).prepare();
     let q_prep = aff_c::<G2m>(&G2m::pool().sub[w.shared_pair.1 as usize % POOL_SUB].1).prepare();
-    let sh = Shared { table1: if w.shared_group == 0 { Some(&t1[..]) } else { None }, table2: if w.shared_group == 1 { Some(&t2[..]) } else { None }, window, p_prep: &p_prep, q_prep: &q_prep };
+    let sh = Shared { wb1: wb1.as_ref(), wb2: wb2.as_ref(), p_prep: &p_prep, q_prep: &q_prep };
 
     // (a) sequential reference run
     let mut seq = vec![];
+    let mut lo = Local::new(&sh);
     for op in &w.ops {
-        seq.push(exec(op, &sh)?);
+        seq.push(exec(op, &sh, &mut lo)?);
     }
     // (b) second sequential run: reverse order, unrelated prefixes interleaved
+    let mut lo = Local::new(&sh);
     for (i, op) in w.ops.iter().enumerate().rev() {
         for pre in w.prefixes.get(i % w.prefixes.len().max(1)).into_iter().flatten() {
-            let _ = exec(pre, &sh)?;
+            let _ = exec(pre, &sh, &mut lo)?;
         }
-        let again = exec(op, &sh)?;
+        let again = exec(op, &sh, &mut lo)?;
         if again != seq[i] {
             return Err(format!("operation #{} ({:?}) gives a different result when evaluated again in another order / after other calls", i, op));
         }
@@ -482,13 +473,14 @@ fn check_workload(w: &Workload, info: &mut Info) -> Result<(), String> {
                     let ops = &w.ops;
                     s.spawn(move || {
                         crate::engine::install_panic_hook();
+                        let mut lo = Local::new(sh);
                         barrier.wait();
                         let mut out = vec![];
                         for pre in prefix.into_iter().flatten() {
-                            let _ = exec(pre, sh)?;
+                            let _ = exec(pre, sh, &mut lo)?;
                         }
                         for i in mine {
-                            out.push((*i, exec(&ops[*i], sh)?));
+                            out.push((*i, exec(&ops[*i], sh, &mut lo)?));
                         }
                         Ok(out)
                     })
